@@ -267,6 +267,8 @@ structure FiberRec where
   entryIp : Int
   /-- `frames[0].closure`, as a value -/
   closure0 : Value
+  /-- the exception-in-flight flag as it stood when control last left the fiber (`ObjFiber::handling_exception`) -/
+  handling : Bool := false
   /-- the current frame's `slot_base` and closure, and the frames below it (outermost first) -/
   slotBase : Int := 0
   curClosure : Value := .None
@@ -309,6 +311,8 @@ structure Vm where
   (`frameIp`, `slotBase`, `curClosure`), `frames` counts all of them -/
   curClosure : Value := .None
   outer : List FrameRec := []
+  /-- the running fiber's `handling_exception` field (the copy of `handling` that travels with the fiber) -/
+  fiberHandling : Bool := false
 deriving Repr
 
 def Vm.pop (vm : Vm) : M (Value × Vm) :=
@@ -397,12 +401,12 @@ def Vm.raise (vm : Vm) (e : Err) : M (Except Err Unit × Vm) :=
 def Vm.currentRec (vm : Vm) : FiberRec :=
   { stack := vm.stack, handlers := vm.handlers, frames := vm.frames, frameIp := vm.frameIp, returnIp := vm.returnIp,
     returnValue := vm.returnValue, errorIp := vm.errorIp, caller := vm.caller, entryIp := vm.entryIp, closure0 := vm.closure0,
-    slotBase := vm.slotBase, curClosure := vm.curClosure, outer := vm.outer }
+    slotBase := vm.slotBase, curClosure := vm.curClosure, outer := vm.outer, handling := vm.fiberHandling }
 
 def Vm.withRec (vm : Vm) (r : FiberRec) : Vm :=
   { vm with stack := r.stack, handlers := r.handlers, frames := r.frames, frameIp := r.frameIp, returnIp := r.returnIp,
             returnValue := r.returnValue, errorIp := r.errorIp, caller := r.caller, entryIp := r.entryIp, closure0 := r.closure0,
-            slotBase := r.slotBase, curClosure := r.curClosure, outer := r.outer }
+            slotBase := r.slotBase, curClosure := r.curClosure, outer := r.outer, fiberHandling := r.handling }
 
 def lookupFiber (ps : List (Nat × FiberRec)) (id : Nat) : Option FiberRec := (ps.find? (·.1 == id)).map (·.2)
 
